@@ -1001,16 +1001,16 @@ def normalise(tree):
         if not k:
             break
     n_inlined = n_inlined0 + _inline_wrappers(tree)
-    aa = _AnyAll()
-    aa.visit(tree)
-    gs = _GetSetAttr()
-    gs.visit(tree)
     tables = _module_tables(tree)
     n_unrolled = 0
     for fn in [n for n in ast.walk(tree) if isinstance(n, (ast.FunctionDef, ast.AsyncFunctionDef))]:
         u = _Unroll(tables, fn)
         u.generic_visit(fn)
         n_unrolled += u.count
+    aa = _AnyAll()
+    aa.visit(tree)
+    gs = _GetSetAttr()
+    gs.visit(tree)
     n_flags = 0
     for fn in [n for n in ast.walk(tree) if isinstance(n, (ast.FunctionDef, ast.AsyncFunctionDef))]:
         n_flags += _inline_flags(fn)
